@@ -154,7 +154,7 @@ def checker_factory(modname, fopts_list):
                 x, today = w
                 desc = native_violation(modname, x, fopts, opts, today)
                 sw.finding('format changes the number', what.split(' (')[0], input=x, opts=opts, fopts=fopts, today=today,
-                           approx=ctx.approx, real=desc, reproduced=desc is not None)
+                           approx=ctx.approx or bool(getattr(ctx, 'soft', None)), real=desc, reproduced=desc is not None)
             sw.obligations.append((oid, 'proved' if ok else 'refuted', '%d closure paths' % len(paths)))
             if len(sw.samples) < 1 and paths:
                 sw.samples.append(dict(n=n, closure_paths=len(paths), format_opts=fopts))
